@@ -24,6 +24,7 @@ import (
 	"sync"
 	"time"
 
+	"github.com/ipfs/go-cid"
 	"github.com/ipfs/go-unixfsnode"
 	"github.com/ipfs/go-unixfsnode/hamt"
 	"github.com/ipld/go-ipld-prime"
@@ -69,6 +70,8 @@ type SchedCase struct {
 	Cfg   string `json:"cfg"`
 	Ops   []SOp  `json:"ops"`   // one per reader
 	Warm  []SOp  `json:"warm"`  // run alone first
+	Miss  []int  `json:"miss"`  // block classes that cannot be loaded
+	LG    bool   `json:"lg"`    // the readers also park inside every load (a gate in the harness's block store)
 	Sched []int  `json:"sched"` // the readers released, in order (1-based)
 }
 
@@ -169,8 +172,8 @@ func (s *scheduler) hook(point string) {
 // (the unchanged library's never do: nothing here is ever waited out), short afterwards; after fifty behaviours
 // with readers that never returned the remaining ones are not replayed (the verdict is in)
 var (
-	schedPatience = 2 * time.Second
-	schedLinger   = 2 * time.Second
+	schedPatience = 10 * time.Second
+	schedLinger   = 10 * time.Second
 	schedHangs    = 0
 )
 
@@ -188,7 +191,16 @@ func runSchedCase(sc *SchedCase, tr *Tr) error {
 	st.parallel, st.logLoads = true, true
 	st.mu.Lock()
 	st.ResetLog()
+	st.missing = map[string]bool{}
+	for _, c := range sc.Miss {
+		if c < 1 || c >= len(dw.cids) {
+			st.mu.Unlock()
+			return fmt.Errorf("sched: no block class %d", c)
+		}
+		st.missing[key(dw.cids[c])] = true
+	}
 	st.mu.Unlock()
+	defer func() { st.missing = map[string]bool{} }()
 	ls := st.LinkSystem()
 	rootNode, err := loadNode(ls, d.root.Cid)
 	if err != nil {
@@ -213,6 +225,10 @@ func runSchedCase(sc *SchedCase, tr *Tr) error {
 	s := &scheduler{ids: map[int64]int{}, resume: make([]chan struct{}, G+1), events: make(chan schedEv, 4*G+4)}
 	hamt.VerifYield = s.hook
 	defer func() { hamt.VerifYield = nil }()
+	if sc.LG {
+		st.onLoad = func(cid.Cid) { s.hook("load") }
+		defer func() { st.onLoad = nil }()
+	}
 	// what one operation answers, in the vocabulary of the trace
 	doOp := func(op SOp) M {
 		res := M{"o": op.O, "name": op.N, "res": "none", "link": 0, "pairs": [][]int{}, "n": -1, "errs": 0}
@@ -248,7 +264,11 @@ func runSchedCase(sc *SchedCase, tr *Tr) error {
 	for _, w := range sc.Warm {
 		doOp(w) // alone, to its end: the hook lets unregistered goroutines through
 	}
-	tr.Emit(M{"ev": "sstart", "ops": sc.Ops, "warm": sc.Warm, "wloads": takeLoads(), "e": "nil"})
+	miss := sc.Miss
+	if miss == nil {
+		miss = []int{}
+	}
+	tr.Emit(M{"ev": "sstart", "ops": sc.Ops, "warm": sc.Warm, "miss": miss, "lg": sc.LG, "wloads": takeLoads(), "e": "nil"})
 	results := make([]M, G+1)
 	for g := 1; g <= G; g++ {
 		s.resume[g] = make(chan struct{}, 1)
@@ -361,6 +381,7 @@ func runSchedCase(sc *SchedCase, tr *Tr) error {
 			schedLinger = 100 * time.Millisecond
 		}
 		hamt.VerifYield = nil
+		st.onLoad = nil
 		for _, g := range hung {
 			select {
 			case s.resume[g] <- struct{}{}:
@@ -396,7 +417,28 @@ func init() {
 			return err
 		}
 		defer tr.Close()
-		tr.Emit(M{"S": d.dw.Shards, "digits": d.digits, "ops": d.cfg.Ops, "warms": d.cfg.Warms, "cfg": d.cfg.Name})
+		// the alternatives for the unavailable blocks: none; the deepest shard; the last first-level shard
+		deepest, depthOf, lastFirst := 0, map[int]int{1: 0}, 0
+		for i, sh := range d.dw.Shards {
+			if i == 0 {
+				continue
+			}
+			depthOf[i+1] = depthOf[sh.Parent] + 1
+			if deepest == 0 || depthOf[i+1] > depthOf[deepest] {
+				deepest = i + 1
+			}
+			if sh.Parent == 1 {
+				lastFirst = i + 1
+			}
+		}
+		misses := [][]int{{}}
+		if deepest > 0 {
+			misses = append(misses, []int{d.dw.Shards[deepest-1].C})
+		}
+		if lastFirst > 0 && lastFirst != deepest {
+			misses = append(misses, []int{d.dw.Shards[lastFirst-1].C})
+		}
+		tr.Emit(M{"S": d.dw.Shards, "digits": d.digits, "ops": d.cfg.Ops, "warms": d.cfg.Warms, "misses": misses, "cfg": d.cfg.Name})
 		return nil
 	}
 }
